@@ -16,8 +16,15 @@ Tie (DESIGN.md §3 C07):
       `Model.InputImports.generate`;
     * a generated method / input class whose text does not fit the IR is a mismatch (and the method is still
       called by the oracle through a loose reading of its text);
-  oracle (the property itself): real packages with instrumented scalars (seven configuration
-    families), real calls: every non-null response occurrence reaches user code as parse(raw), parse
+    * unions: `Spec.PydUnionLog.validateU` vs the REAL pydantic on random annotations with tagged (`Field(discriminator=…)`)
+      and plain unions of model classes under every Optional / List nesting, conformant and corrupted values;
+    * abstract result positions (interface / union fields resolved with inline fragments, under every wrapper nesting,
+      nested inside member classes): annotations of REAL generated classes (unions, literals, discriminators kept as
+      syntax) vs `Model.ResultUnion.annField`; the scalar imports of REAL result modules vs `Model.ResultUnion.resultImports`;
+  oracle (the property itself): real packages with instrumented scalars (ten configuration
+    families; result selections with plain / optional / list / nested-object / fragment positions and abstract positions -
+    interface and union fields with inline fragments under every wrapper nesting, a scalar selected on the interface level
+    standing in every member class), real calls: every non-null response occurrence reaches user code as parse(raw), parse
     called once for it and never for null; every non-null argument occurrence is transmitted as
     serialize(value), called once for it and never for None / an omitted argument; type-only scalars
     round-trip, unconfigured ones pass through; every module imports and binds the names its annotations / calls use
@@ -43,6 +50,12 @@ FINGERPRINTS = [
     ("ariadne_codegen/client_generators/result_fields.py", "parse_scalar_type"),
     ("ariadne_codegen/client_generators/result_fields.py", "parse_list_type"),
     ("ariadne_codegen/client_generators/result_fields.py", "parse_operation_field_type"),
+    ("ariadne_codegen/client_generators/result_fields.py", "parse_operation_field"),
+    ("ariadne_codegen/client_generators/result_fields.py", "annotate_nested_unions"),
+    ("ariadne_codegen/client_generators/result_fields.py", "parse_interface_type"),
+    ("ariadne_codegen/client_generators/result_fields.py", "parse_union_type"),
+    ("ariadne_codegen/client_generators/result_types.py", "ResultTypesGenerator._process_field_implementation"),
+    ("ariadne_codegen/codegen.py", "generate_union_annotation"),
     ("ariadne_codegen/client_generators/input_fields.py", "parse_input_field_type"),
     ("ariadne_codegen/client_generators/arguments.py", "ArgumentsGenerator._get_dict_value"),
     ("ariadne_codegen/client_generators/arguments.py", "ArgumentsGenerator._parse_named_type_node"),
@@ -380,6 +393,181 @@ def run_pydantic(ctx: Ctx, st: Optional[LeanStatus], res: Result) -> None:
 
 
 # --------------------------------------------------------------------------------------------
+# 2a. pydantic on unions of model classes (tagged / plain), with call logs
+# --------------------------------------------------------------------------------------------
+
+TAG_POOL = ["A", "B", "C", "D", "E", "F"]
+
+
+def rand_pleaf(rng: random.Random) -> Dict[str, Any]:
+    return {"k": "leaf", "l": rand_leaf(rng, "result")}
+
+
+def rand_pmember_fields(rng: random.Random, depth: int, tags: Optional[List[str]], shared: List[List[Any]]) -> List[List[Any]]:
+    fs: List[List[Any]] = []
+    if tags is not None:
+        fs.append(["__typename", {"k": "literal", "vs": tags}])
+    fs += [[k, a] for k, a in shared]
+    for i in range(rng.randint(0, 2)):
+        fs.append([f"m{depth}_{i}", rand_pann(rng, depth + 1)])
+    return fs
+
+
+def rand_punion(rng: random.Random, depth: int) -> Dict[str, Any]:
+    tagged = rng.random() < 0.6
+    n = rng.randint(2, 3)
+    pool = rng.sample(TAG_POOL, len(TAG_POOL))
+    shared = [[f"s{depth}_{i}", rand_pann(rng, depth + 1)] for i in range(rng.randint(0, 2))]
+    members = []
+    for i in range(n):
+        tags: Optional[List[str]] = [pool.pop() for _ in range(rng.randint(1, 2))]
+        if not tagged and rng.random() < 0.25:
+            tags = None  # a plain union may hold classes without a Literal field
+        if not tagged and tags is not None and rng.random() < 0.2:
+            tags = tags + [rng.choice(TAG_POOL)]  # overlapping literals are legal in a plain union
+        members.append(rand_pmember_fields(rng, depth, tags, shared))
+    return {"k": "dunion" if tagged else "union", "members": members}
+
+
+def rand_pann(rng: random.Random, depth: int = 0, under_opt: bool = False) -> Dict[str, Any]:
+    r = rng.random()
+    if not under_opt and r < 0.25:
+        return {"k": "optional", "a": rand_pann(rng, depth, True)}
+    if depth < 3 and r < 0.45:
+        return {"k": "list", "a": rand_pann(rng, depth + 1)}
+    if depth < 2 and r < 0.6:
+        return {"k": "model", "fields": [[f"k{depth}_{i}", rand_pann(rng, depth + 1)] for i in range(rng.randint(1, 3))]}
+    if depth < 2 and r < 0.85:
+        return rand_punion(rng, depth)
+    return rand_pleaf(rng)
+
+
+def rand_pvalue(rng: random.Random, ann: Dict[str, Any], corrupt: float) -> Any:
+    if rng.random() < corrupt:
+        return rng.choice([None, 5, "x", [], {}, [None], {"__typename": "A"}, {"__typename": 3}, {"__typename": "Zz", "s0_0": 1}])
+    k = ann["k"]
+    if k == "optional":
+        return None if rng.random() < 0.3 else rand_pvalue(rng, ann["a"], corrupt)
+    if k == "list":
+        return [rand_pvalue(rng, ann["a"], corrupt) for _ in range(rng.randint(0, 3))]
+    if k == "literal":
+        return rng.choice(ann["vs"]) if ann["vs"] and rng.random() < 0.9 else rng.choice(TAG_POOL)
+    if k == "model":
+        return {key: rand_pvalue(rng, a, corrupt) for key, a in ann["fields"]}
+    if k in ("union", "dunion"):
+        fs = rng.choice(ann["members"])
+        return {key: rand_pvalue(rng, a, corrupt) for key, a in fs}
+    return rng.choice(["r", 3, ["a", None], {"z": 1}, "", 0, False])
+
+
+def child_pydantic_u(items: List[Dict[str, Any]]) -> List[Dict[str, Any]]:
+    """REAL pydantic on the annotation syntax of Model.ResultUnion.PAnn (unions of dynamically built model classes),
+    with instrumented parse functions"""
+    from typing import Annotated, Any as TAny, List as TList, Literal as TLiteral, Optional as TOptional, Union as TUnion
+
+    from pydantic import BeforeValidator, ConfigDict, Field, ValidationError, create_model
+
+    log: List[Any] = []
+
+    class Sc:
+        def __init__(self, raw: Any) -> None:
+            self.raw = raw
+
+    def mk_parse(name: str) -> Any:
+        def parse(raw: Any) -> Any:
+            log.append([name, wire.enc(raw)])
+            return Sc(raw)
+
+        return parse
+
+    counter = [0]
+    cfg = ConfigDict(arbitrary_types_allowed=True, populate_by_name=True)
+
+    def build_model(fields: List[List[Any]]) -> Any:
+        counter[0] += 1
+        fs: Dict[str, Any] = {}
+        for i, (k, a) in enumerate(fields):
+            name = "typename__" if k == "__typename" else f"f{i}"
+            fs[name] = (build(a), Field(alias=k))
+        return create_model(f"U{counter[0]}", __config__=cfg, **fs)  # type: ignore
+
+    def build(ann: Dict[str, Any]) -> Any:
+        k = ann["k"]
+        if k == "leaf":
+            l = ann["l"]
+            return Annotated[Sc, BeforeValidator(mk_parse(l["parse"]))] if l["k"] == "before" else TAny
+        if k == "literal":
+            return TLiteral[tuple(ann["vs"])]  # type: ignore
+        if k == "optional":
+            return TOptional[build(ann["a"])]
+        if k == "list":
+            return TList[build(ann["a"])]  # type: ignore
+        if k == "model":
+            return build_model(ann["fields"])
+        members = tuple(build_model(fs) for fs in ann["members"])
+        u = TUnion[members]  # type: ignore
+        return Annotated[u, Field(discriminator="typename__")] if k == "dunion" else u
+
+    out = []
+    for it in items:
+        log.clear()
+        try:
+            root = create_model("Root", __config__=cfg, x=(build(it["ann"]), ...))  # type: ignore
+            ok = True
+            try:
+                root.model_validate({"x": wire.dec(it["j"])})
+            except ValidationError:
+                ok = False
+            out.append({"calls": list(log), "ok": ok})
+        except BaseException as e:  # noqa: BLE001
+            out.append({"exception": f"{type(e).__name__}: {str(e)[:200]}"})
+    return out
+
+
+def pann_has(ann: Dict[str, Any], kind: str) -> bool:
+    k = ann["k"]
+    if k == kind:
+        return True
+    if k in ("optional", "list"):
+        return pann_has(ann["a"], kind)
+    if k == "model":
+        return any(pann_has(a, kind) for _, a in ann["fields"])
+    if k in ("union", "dunion"):
+        return any(pann_has(a, kind) for fs in ann["members"] for _, a in fs)
+    return False
+
+
+def run_pydantic_unions(ctx: Ctx, st: Optional[LeanStatus], res: Result) -> None:
+    rng = ctx.sub_rng("pydantic-unions")
+    items = []
+    for _ in range(ctx.budget(2500, 25000)):
+        ann = rand_pann(rng)
+        if not (pann_has(ann, "union") or pann_has(ann, "dunion")) and rng.random() < 0.8:
+            ann = {"k": rng.choice(["list", "optional"]), "a": rand_punion(rng, 1)}
+        items.append({"op": "validateU", "ann": ann, "j": wire.enc(rand_pvalue(rng, ann, corrupt=rng.choice([0.0, 0.0, 0.08])))})
+    chunks = [items[i:i + 300] for i in range(0, len(items), 300)]
+    outs = engine.pmap_forked(child_pydantic_u, [(c,) for c in chunks], timeout=300)
+    real: List[Any] = []
+    for status, val in outs:
+        if status != "ok":
+            raise common.Infra(f"pydantic-unions child failed: {status} {str(val)[:300]}")
+        real += val
+    if st is None or not st.driver_ok:
+        return
+    model = common.run_driver(PROP, items)
+    for it, r, m in zip(items, real, model):
+        res.seen(["validateU", it], nontrivial=True)
+        if "exception" in r:
+            res.mismatches.append(Mismatch("pydantic-union", it, "observer: " + r["exception"], m))
+            continue
+        res.count("pydantic-union:" + ("tagged" if pann_has(it["ann"], "dunion") else "") + ("+plain" if pann_has(it["ann"], "union") else "")
+                  + (":accepted" if r["ok"] else ":rejected"))
+        res.count("pydantic-union:parse-calls", len(r["calls"]))
+        if not common.same_json(r, m):
+            res.mismatches.append(Mismatch("pydantic-union", it, r, m))
+
+
+# --------------------------------------------------------------------------------------------
 # 2b. the scalar imports of the input-types module (AST level, before autoflake / isort)
 # --------------------------------------------------------------------------------------------
 
@@ -548,7 +736,201 @@ def shape_of_op(case: Dict[str, Any], op: Dict[str, Any]) -> Dict[str, Any]:
     kids_fields = scal(True) or [ok]
     kids = {"k": "list", "item": {"k": "obj", "fields": kids_fields, "nn": True}, "nn": False}
     r = {"k": "obj", "fields": [ok] + scal(False) + [["child", child], ["kids", kids]], "nn": False}
+    if case.get("abstract"):
+        r["fields"] += [[f["name"], abstract_shape(case, f)] for f in case["abstract"]["fields"]]
     return {"k": "obj", "fields": [[op["field"], r]], "nn": True}
+
+
+def abstract_shape(case: Dict[str, Any], f: Dict[str, Any]) -> Dict[str, Any]:
+    """the response shape (RTU) of one abstract field of argwire.abstract_selection: one class per member, told apart by
+    the `Literal` of its `__typename` field (the class of the interface itself takes the interface name and every
+    possible type without a fragment), under the wrappers of the field's type"""
+
+    def cust(s: str, nn: bool) -> Dict[str, Any]:
+        return {"k": "custom", "scalar": s, "nn": nn}
+
+    def plain(py: str, nn: bool) -> Dict[str, Any]:
+        return {"k": "plain", "py": py, "nn": nn}
+
+    def tag(vals: List[str]) -> List[Any]:
+        return ["__typename", {"k": "tag", "vals": sorted(vals)}]
+
+    rs = argwire.result_scalars(case)
+    ifields: List[List[Any]] = []
+    for s in rs:
+        p = s.lower()
+        ifields += [[p + "Stamp", cust(s, True)], [p + "Opt", cust(s, False)], [p + "Items", {"k": "list", "item": cust(s, False), "nn": False}]]
+
+    def member_fields(m: str, iface: bool, nest: bool) -> List[List[Any]]:
+        if m == "Cat":
+            fs = [[s.lower() + "Cat", cust(s, False)] for s in rs] + [["lives", plain("int", False)]]
+            if nest:
+                fs.append(["friend", position("Animal", ["Dog"], iface, False, False)])
+            return fs
+        if m == "Dog":
+            return [[s.lower() + "Dog", {"k": "list", "item": cust(s, True), "nn": False}] for s in rs] + [["barks", plain("bool", False)]]
+        return [["id", plain("str", True)]]
+
+    def position(base: str, frags: List[str], iface: bool, nest: bool, nn: bool) -> Dict[str, Any]:
+        possible = argwire.ABSTRACT_POSSIBLE[base]
+        own = ifields if iface else []
+        if base == "Animal":
+            if not frags:
+                return {"k": "obj", "fields": [tag(["Animal"] + possible)] + (own or [["id", plain("str", True)]]), "nn": nn}
+            members = [[tag(["Animal"] + [t for t in possible if t not in frags])] + own]
+            for m in sorted(frags):
+                members.append([tag([m])] + own + member_fields(m, iface, nest))
+            return {"k": "abs", "members": members, "nn": nn}
+        members = []
+        for m in possible:  # parse_union_type: one class per type of the union, in schema order
+            members.append([tag([m])] + ((own + member_fields(m, iface, nest)) if m in frags else []))
+        return {"k": "abs", "members": members, "nn": nn}
+
+    def wrap(t: List[Any], nn: bool) -> Dict[str, Any]:
+        if t[0] == "nonnull":
+            return wrap(t[1], True)
+        if t[0] == "list":
+            return {"k": "list", "item": wrap(t[1], False), "nn": nn}
+        return position(t[1], list(f["frags"]), bool(f.get("iface")), bool(f.get("nest")), nn)
+
+    return wrap(f["type"], False)
+
+
+# ---- real result classes with unions -> the annotation syntax of Model.ResultUnion.PAnn
+
+
+def ann_to_pann(node: Any) -> Dict[str, Any]:
+    """annotation ast of a generated result class -> PAnn with wrappers as syntax; forward references stay {"k":"fwd"}
+    until `inline_u`; raises CanonError on any shape the result generators are not known to emit"""
+    import ast
+
+    if isinstance(node, ast.Constant) and isinstance(node.value, str):
+        return {"k": "fwd", "cls": node.value}
+    if isinstance(node, ast.Name):
+        if node.id.startswith('"') and node.id.endswith('"') and len(node.id) >= 2:
+            return {"k": "fwd", "cls": node.id[1:-1]}
+        return {"k": "leaf", "l": {"k": "name", "n": node.id}}
+    if isinstance(node, ast.Attribute):
+        return {"k": "leaf", "l": {"k": "name", "n": ast.unparse(node)}}
+    if isinstance(node, ast.Subscript) and isinstance(node.value, ast.Name):
+        head = node.value.id
+        if head == "Optional":
+            return {"k": "optional", "a": ann_to_pann(node.slice)}
+        if head == "List":
+            return {"k": "list", "a": ann_to_pann(node.slice)}
+        if head == "Union":
+            elts = node.slice.elts if isinstance(node.slice, ast.Tuple) else [node.slice]
+            ms = [ann_to_pann(e) for e in elts]
+            if any(m["k"] != "fwd" for m in ms):
+                raise argwire.CanonError("union member is not a class: " + ast.unparse(node)[:80])
+            return {"k": "union", "members": ms}
+        if head == "Literal":
+            elts = node.slice.elts if isinstance(node.slice, ast.Tuple) else [node.slice]
+            if not all(isinstance(e, ast.Constant) and isinstance(e.value, str) for e in elts):
+                raise argwire.CanonError("literal " + ast.unparse(node)[:80])
+            return {"k": "literal", "vs": [e.value for e in elts]}
+        if head == "Annotated" and isinstance(node.slice, ast.Tuple) and len(node.slice.elts) == 2:
+            t, c = node.slice.elts
+            if isinstance(c, ast.Call) and isinstance(c.func, ast.Name):
+                if c.func.id == "BeforeValidator" and isinstance(t, ast.Name) and len(c.args) == 1 and isinstance(c.args[0], ast.Name) and not c.keywords:
+                    return {"k": "leaf", "l": {"k": "before", "type": t.id, "parse": c.args[0].id}}
+                if c.func.id == "Field" and not c.args and [kw.arg for kw in c.keywords] == ["discriminator"] \
+                        and isinstance(c.keywords[0].value, ast.Constant) and c.keywords[0].value.value == "typename__":
+                    inner = ann_to_pann(t)
+                    if inner["k"] != "union":
+                        raise argwire.CanonError("discriminator on a non-union: " + ast.unparse(node)[:80])
+                    return {"k": "dunion", "members": inner["members"]}
+    raise argwire.CanonError("annotation " + ast.unparse(node)[:80])
+
+
+def module_classes_u(src: str) -> Dict[str, List[List[Any]]]:
+    """result module source -> class name -> [[response key, PAnn]] (a `Field(discriminator="typename__")` keyword on the
+    field turns its `Union[...]` into the tagged union, as pydantic reads it)"""
+    import ast
+
+    out: Dict[str, List[List[Any]]] = {}
+    for cls in [c for c in ast.parse(src).body if isinstance(c, ast.ClassDef)]:
+        if [b.id for b in cls.bases if isinstance(b, ast.Name)] != ["BaseModel"]:
+            raise argwire.CanonError(f"class {cls.name}: bases")
+        fields: List[List[Any]] = []
+        for st in cls.body:
+            if not (isinstance(st, ast.AnnAssign) and isinstance(st.target, ast.Name)):
+                continue
+            ann = ann_to_pann(st.annotation)
+            key = st.target.id
+            v = st.value
+            if v is not None:
+                if not (isinstance(v, ast.Call) and isinstance(v.func, ast.Name) and v.func.id == "Field" and not v.args):
+                    raise argwire.CanonError(f"{cls.name}.{key}: value " + ast.unparse(v)[:60])
+                kws = {kw.arg: kw.value for kw in v.keywords}
+                if set(kws) - {"alias", "discriminator"}:
+                    raise argwire.CanonError(f"{cls.name}.{key}: Field keywords {sorted(map(str, kws))}")
+                if "alias" in kws:
+                    if not isinstance(kws["alias"], ast.Constant):
+                        raise argwire.CanonError(f"{cls.name}.{key}: alias")
+                    key = kws["alias"].value
+                if "discriminator" in kws:
+                    if not (isinstance(kws["discriminator"], ast.Constant) and kws["discriminator"].value == "typename__"):
+                        raise argwire.CanonError(f"{cls.name}.{key}: discriminator")
+                    if ann["k"] != "union":
+                        raise argwire.CanonError(f"{cls.name}.{key}: discriminator on a non-union")
+                    ann = {"k": "dunion", "members": ann["members"]}
+            fields.append([key, ann])
+        out[cls.name] = fields
+    return out
+
+
+def inline_u(classes: Dict[str, List[List[Any]]], root: str, depth: int = 0) -> List[List[Any]]:
+    """the fields of a class with every forward reference replaced by the fields of the class it names"""
+    if depth > 14:
+        raise argwire.CanonError("class nesting")
+    if root not in classes:
+        raise argwire.CanonError("class " + root + " not found")
+
+    def conv(a: Dict[str, Any]) -> Dict[str, Any]:
+        k = a["k"]
+        if k == "fwd":
+            return {"k": "model", "fields": inline_u(classes, a["cls"], depth + 1)}
+        if k in ("optional", "list"):
+            return {"k": k, "a": conv(a["a"])}
+        if k in ("union", "dunion"):
+            return {"k": k, "members": [inline_u(classes, m["cls"], depth + 1) for m in a["members"]]}
+        return a
+
+    return [[key, conv(a)] for key, a in classes[root]]
+
+
+def names_used_u(a: Dict[str, Any]) -> List[str]:
+    k = a["k"]
+    if k == "leaf":
+        l = a["l"]
+        return {"name": [l.get("n")], "before": [l.get("type"), l.get("parse")]}.get(l["k"], [])
+    if k in ("optional", "list"):
+        return names_used_u(a["a"])
+    return []
+
+
+def all_names_u(a: Dict[str, Any]) -> List[str]:
+    """every name the leaves of an inlined annotation use, classes entered"""
+    k = a["k"]
+    if k == "model":
+        return [n for _, x in a["fields"] for n in all_names_u(x)]
+    if k in ("union", "dunion"):
+        return [n for fs in a["members"] for _, x in fs for n in all_names_u(x)]
+    if k in ("optional", "list"):
+        return all_names_u(a["a"])
+    return [n for n in names_used_u(a) if n]
+
+
+def pick_member(members: List[List[List[Any]]], j: Any) -> Optional[List[List[Any]]]:
+    """the member class of an abstract position an object belongs to: the one whose `__typename` literal lists its type"""
+    if not isinstance(j, dict):
+        return None
+    for fs in members:
+        t = next((sub for key, sub in fs if key == "__typename"), None)
+        if t is not None and t["k"] == "tag" and j.get("__typename") in t["vals"]:
+            return fs
+    return None
 
 
 def inline_classes(classes: Dict[str, List[Dict[str, Any]]], root: str, depth: int = 0,
@@ -588,15 +970,16 @@ def expected_parse(case: Dict[str, Any], shape: Dict[str, Any], j: Any) -> List[
     if k == "custom":
         fn = argwire.family_of(case, shape["scalar"])["parse"]
         return [[fn, j]] if fn else []
-    if k == "plain":
+    if k in ("plain", "tag"):
         return []
     if k == "list":
         out: List[Any] = []
         for x in j:
             out += expected_parse(case, shape["item"], x)
         return out
+    fields = shape["fields"] if k == "obj" else (pick_member(shape["members"], j) or [])
     out = []
-    for key, sub in shape["fields"]:
+    for key, sub in fields:
         out += expected_parse(case, sub, j.get(key))
     return out
 
@@ -617,11 +1000,12 @@ def expected_value(case: Dict[str, Any], shape: Dict[str, Any], j: Any) -> Any:
 
             return {"$datetime": datetime.datetime.fromisoformat(j).isoformat()}
         return j
-    if k == "plain":
+    if k in ("plain", "tag"):
         return j
     if k == "list":
         return [expected_value(case, shape["item"], x) for x in j]
-    return {key: expected_value(case, sub, j.get(key)) for key, sub in shape["fields"]}
+    fields = shape["fields"] if k == "obj" else (pick_member(shape["members"], j) or [])
+    return {key: expected_value(case, sub, j.get(key)) for key, sub in fields}
 
 
 def expected_serialize(case: Dict[str, Any], defs: List[Dict[str, Any]], values: List[Any]) -> List[Any]:
@@ -734,7 +1118,7 @@ def names_used(ann: Dict[str, Any]) -> List[str]:
 BUILTIN_NAMES = {"str", "int", "float", "bool", "Any", "Upload"}
 
 CASE_KEYS = ("snake", "async", "enums", "scalars", "inputs", "ops")
-CASE_KEYS_OPT = ("extra_config", "loose_methods", "fragments")
+CASE_KEYS_OPT = ("extra_config", "loose_methods", "fragments", "abstract")
 
 
 def case_input(case: Dict[str, Any]) -> Dict[str, Any]:
@@ -811,6 +1195,37 @@ def nested_only_scalars(case: Dict[str, Any]) -> List[str]:
     return sorted(scal(closure) - scal(list(set(roots))))
 
 
+def gen_abstract(rng: random.Random) -> Dict[str, Any]:
+    """abstract result fields (argwire.abstract_selection): interface / union positions under every wrapper nesting
+    (nullable and non-null items, nested lists, single nullable / non-null), with and without the interface-level
+    scalar fields that end up in EVERY member class, with and without an abstract position nested in a member"""
+    fields = []
+    for i in range(rng.randint(1, 3)):
+        base = "Animal" if rng.random() < 0.7 else "Pet"
+        t: List[Any] = argwire.named(base)
+        shape = rng.choice(["one", "one!", "[x]", "[x!]", "[x]!", "[x!]!", "[[x]]", "[[x!]!]", "[x]", "[[x]]!"])
+        if shape in ("one!",):
+            t = ["nonnull", t]
+        elif shape.startswith("[["):
+            inner: List[Any] = ["nonnull", t] if "x!" in shape else t
+            mid: List[Any] = ["list", inner]
+            if shape.startswith("[[x!]!"):
+                mid = ["nonnull", mid]
+            t = ["list", mid]
+            if shape.endswith("]!"):
+                t = ["nonnull", t]
+        elif shape.startswith("["):
+            t = ["list", ["nonnull", t] if "x!" in shape else t]
+            if shape.endswith("]!"):
+                t = ["nonnull", t]
+        possible = argwire.ABSTRACT_POSSIBLE[base]
+        frags = rng.sample(possible, rng.randint(1, len(possible)))
+        if base == "Animal" and rng.random() < 0.12:
+            frags = []
+        fields.append({"name": f"abs{i}", "type": t, "frags": frags, "iface": rng.random() < 0.75, "nest": rng.random() < 0.3})
+    return {"fields": fields}
+
+
 def e2e_cases(ctx: Ctx, n: int, label: str) -> List[Dict[str, Any]]:
     rng = ctx.sub_rng(label)
     cases = []
@@ -822,6 +1237,8 @@ def e2e_cases(ctx: Ctx, n: int, label: str) -> List[Dict[str, Any]]:
         c["loose_methods"] = True
         if rng.random() < 0.35:
             c["fragments"] = True  # the scalar fields of `child` through a fragment spread (class of fragments.py as base)
+        elif rng.random() < 0.6:
+            c["abstract"] = gen_abstract(rng)
         if rng.random() < 0.5:
             add_deep_chain(rng, c, attach_p=0.85, root_p=0.7)
         else:
@@ -899,11 +1316,40 @@ def judge_e2e(ctx: Ctx, st: Optional[LeanStatus], res: Result, cases: List[Dict[
             for n in used:
                 if n and n not in cbound and n not in BUILTIN_NAMES and "." not in n:
                     per_case[ci].append(Failure("name-not-imported", None, {"case": inp_case, "calls": []}, f"client.{ir['name']}: {n}"))
+        # client.py: the scalar imports of the module vs Model.ClientImports (on the names the methods use: autoflake
+        # removes the rest, e.g. `parse` functions)
+        mir = out.get("methods") or {}
+        if "$canon_errors" not in mir and not any(ir.get("loose") for ir in mir.values()) and case["scalars"]:
+            used_c = {n for ir in mir.values() for a in ir["args"] for n in names_used(a["ann"]) if n} | \
+                     {e["fn"] for ir in mir.values() for _, e in ir["dict"] if e["k"] == "call"}
+            lines.append({"op": "clientImports", "kinds": out["kinds"], "scalars": argwire.scalars_cfg_json(case), "snake": case["snake"],
+                          "ops": [[{"name": d["name"], "type": d["type"]} for d in defs_] for defs_ in out["defs"].values()]})
+            meta.append(("clientImports", ci, sorted(used_c), out.get("client_imports", [])))
         # imports cover the names the annotations use, module by module
         frag = out.get("fragments_module")
         if frag is not None:
             res.count("e2e:fragments-module")
-        for mod, info in list(out.get("result_modules", {}).items()) + ([("fragments", frag)] if frag is not None else []) \
+        abstract = bool(case.get("abstract"))
+        umods: Dict[str, Any] = {}
+        if abstract:
+            # result modules of a case with abstract positions: unions / literals / discriminators kept as syntax
+            res.count("e2e:abstract-case")
+            for mod, src in (out.get("result_sources") or {}).items():
+                try:
+                    umods[mod] = {"classes": module_classes_u(src), "imports": argwire.module_imports(src)}
+                except (argwire.CanonError, SyntaxError) as e:
+                    umods[mod] = {"canon_error": str(e)}
+            for mod, info in umods.items():
+                if "canon_error" in info:
+                    res.mismatches.append(Mismatch("result-annotation", {"case": inp_case, "module": mod}, "canon: " + info["canon_error"], None))
+                    continue
+                bound = {n for i in info["imports"] for n in i["names"]}
+                for cname, fields in info["classes"].items():
+                    for key, a in fields:
+                        for n in names_used_u(a):
+                            if n and n not in bound and n not in BUILTIN_NAMES and "." not in n:
+                                per_case[ci].append(Failure("name-not-imported", None, {"case": inp_case, "calls": []}, f"{mod}.{cname}.{key}: {n}"))
+        for mod, info in ([] if abstract else list(out.get("result_modules", {}).items())) + ([("fragments", frag)] if frag is not None else []) \
                 + [("input_types", {"classes": out.get("inputs") or {}, "imports": out.get("inputs_imports", [])})]:
             if "canon_error" in info:
                 res.mismatches.append(Mismatch("result-annotation", {"case": inp_case, "module": mod}, "canon: " + info["canon_error"], None))
@@ -916,6 +1362,21 @@ def judge_e2e(ctx: Ctx, st: Optional[LeanStatus], res: Result, cases: List[Dict[
                             per_case[ci].append(Failure("name-not-imported", None, {"case": inp_case, "calls": []}, f"{mod}.{cname}.{d['py']}: {n}"))
         # result annotations vs the model
         for oname, op in ops.items():
+            if abstract:
+                mod = next((m for m, info in umods.items() if "classes" in info and oname in info["classes"]), None)
+                if mod is None:
+                    continue
+                try:
+                    real_u = {"k": "model", "fields": inline_u(umods[mod]["classes"], oname)}
+                except argwire.CanonError as e:
+                    res.mismatches.append(Mismatch("result-annotation", {"case": inp_case, "op": oname}, "canon: " + str(e), None))
+                    continue
+                # the bindings the module's imports make for custom scalars (everything outside the fixed modules)
+                fixed = {"typing", "pydantic", ".base_model", ".enums", ".fragments", ".input_types"}
+                real_bind = sorted({(i["module"], n) for i in umods[mod]["imports"] if i["module"] not in fixed for n in i["names"]})
+                lines.append({"op": "resultAnnU", "scalars": argwire.scalars_cfg_json(case), "shape": shape_of_op(case, op)})
+                meta.append(("resultAnnU", ci, oname, (real_u, real_bind)))
+                continue
             mod = next((m for m, info in out.get("result_modules", {}).items() if "classes" in info and oname in info["classes"]), None)
             if mod is None:
                 continue
@@ -953,9 +1414,13 @@ def judge_e2e(ctx: Ctx, st: Optional[LeanStatus], res: Result, cases: List[Dict[
             call_trig = next((t for _, t, _ in call_fails if t), None)  # the finding region THIS call lies in, if any
             # model: parse occurrences on the real response
             if rec["outcome"] == "ok" and "response" in rec:
-                lines.append({"op": "resultAnn", "scalars": argwire.scalars_cfg_json(case), "shape": shape_of_op(case, op),
+                lines.append({"op": "resultAnnU" if abstract else "resultAnn", "scalars": argwire.scalars_cfg_json(case), "shape": shape_of_op(case, op),
                               "j": wire.enc({op["field"]: rec["response"]})})
                 meta.append(("parseLog", ci, call, par))
+                if abstract:
+                    for fld in case["abstract"]["fields"]:
+                        v = rec["response"].get(fld["name"]) if isinstance(rec["response"], dict) else None
+                        res.count("e2e:abstract-value:" + ("null" if v is None else "list" if isinstance(v, list) else "object"))
             ir = out.get("methods", {}).get(call["op"])
             if ir is not None and out.get("inputs") is not None and not call.get("omits_required"):
                 send_lines.append(c03.send_line(case, out, call, rec.get("sent_query") or ""))
@@ -967,6 +1432,38 @@ def judge_e2e(ctx: Ctx, st: Optional[LeanStatus], res: Result, cases: List[Dict[
                 if kind == "resultAnn":
                     if not common.same_json(y, m["ann"]):
                         res.mismatches.append(Mismatch("result-annotation", {"sdl": case["sdl"], "queries": case["queries"], "op": x, "scalars": case["scalars"]}, y, m["ann"]))
+                elif kind == "clientImports":
+                    res.count("e2e:client-imports")
+                    if "error" in m:
+                        res.mismatches.append(Mismatch("client-imports", {"case": case_input(case), "calls": []}, "generated", m))
+                    else:
+                        # the modules custom scalars are configured to come from (`import` key, dotted prefixes)
+                        mods = {i["module"] for i in m["imports"]}
+                        for s_ in argwire.scalars_cfg_json(case):
+                            if s_.get("import"):
+                                mods.add(s_["import"])
+                            for nm in (s_["type"], s_.get("serialize"), s_.get("parse")):
+                                if nm and "." in nm:
+                                    mods.add(nm.rsplit(".", 1)[0])
+                        rb = sorted({(i["module"], n) for i in y if i["module"] in mods for n in i["names"]})
+                        mb = sorted({(i["module"], n) for i in m["imports"] for n in i["names"] if n in set(x)})
+                        res.count("e2e:client-imports:bindings", len(mb))
+                        if json.loads(json.dumps(rb)) != json.loads(json.dumps(mb)):
+                            res.mismatches.append(Mismatch("client-imports", {"case": case_input(case), "calls": []}, rb, mb))
+                elif kind == "resultAnnU":
+                    real_u, real_bind = y
+                    res.count("e2e:abstract:result-annotation")
+                    if not common.same_json(real_u, m["ann"]):
+                        res.mismatches.append(Mismatch("result-annotation", {"case": case_input(case), "calls": [], "op": x}, real_u, m["ann"]))
+                    elif not case.get("fragments"):
+                        # the emitted file carries the imports the generator made minus the ones autoflake found unused
+                        # (`serialize` functions in a result module): compared on the names the module's annotations use
+                        used = set(all_names_u(real_u))
+                        mb = sorted({(i["module"], n) for i in (m["imports"].get("ok") or []) for n in i["names"] if n in used}) \
+                            if "ok" in m["imports"] else m["imports"]
+                        res.count("e2e:abstract:result-imports", len(mb) if isinstance(mb, list) else 0)
+                        if json.loads(json.dumps(real_bind)) != json.loads(json.dumps(mb)):
+                            res.mismatches.append(Mismatch("result-imports", {"case": case_input(case), "calls": [], "op": x}, real_bind, mb))
                 else:
                     mv = [[c[0], wire.dec(c[1])] for c in m["calls"]]
                     if not m["conforms"] or not common.same_json(y, mv, ordered=True) or not common.same_json(m["calls"], m["occurrences"]):
@@ -1041,7 +1538,8 @@ def run(ctx: Ctx, st: Optional[LeanStatus]) -> Result:
     res.rule = ("imports: one evaluation = one scalar configuration through the real ScalarData/generate_scalar_imports and the model; "
                 "inputs-module: one evaluation = one (schema, operations, configuration, include_all_inputs) through the real "
                 "ArgumentsGenerator + InputTypesGenerator.generate and Model.InputImports.generate; "
-                "pydantic: one evaluation = one (annotation, value) through the real pydantic with instrumented functions and Spec.PydLog; "
+                "pydantic: one evaluation = one (annotation, value) through the real pydantic with instrumented functions and Spec.PydLog "
+                "(unions of model classes, tagged and plain: Spec.PydUnionLog); "
                 "e2e: one evaluation = one call of a real generated method of a package with instrumented custom scalars, "
                 "non-trivial when the schema has at least one custom scalar; distinct = distinct canonical inputs")
     res.extra["fingerprints"] = common.fingerprints(ctx, FINGERPRINTS)
@@ -1054,6 +1552,7 @@ def run(ctx: Ctx, st: Optional[LeanStatus]) -> Result:
     ctx.log("corpus replayed")
     run_imports(ctx, st, res)
     run_pydantic(ctx, st, res)
+    run_pydantic_unions(ctx, st, res)
     run_inputs_module(ctx, st, res)
     ctx.log(f"imports + pydantic + inputs-module correspondence done ({res.evaluations} evaluations, {len(res.mismatches)} mismatches)")
     run_e2e(ctx, st, res, e2e_cases(ctx, ctx.budget(400, 3000), "e2e"))
